@@ -5,14 +5,15 @@ VARIABLES stage, cfg
 vars == <<stage, cfg>>
 Val(i, c, t, salt) == ((7 * i + 3 * c + 5 * t * t + t + 4 * salt * (t + i)) % 11) - 3
 Panel(lens, ncol, salt) == [i \in DOMAIN lens |-> [c \in 1..ncol |-> [t \in 1..lens[i] |-> Val(i, c, t, salt)]]]
-NoP == [L |-> 0, fill |-> 0, lo |-> 0, hi |-> 0, k |-> 1, w |-> 1, method |-> "", const |-> 0, iv |-> << >>, fit |-> 0]
+NoP == [L |-> 0, fill |-> 0, lo |-> 0, hi |-> 0, k |-> 1, w |-> 1, method |-> "", const |-> 0, iv |-> << >>, fit |-> 0, half |-> 0, adj |-> 0]
 Init == stage = "op" /\ cfg = [op |-> "", p |-> NoP, X |-> << >>]
 LenSets == UNION { [1..n -> 3..MaxT] : n \in 1..MaxInst }
 PickOp ==
     /\ stage = "op"
-    /\ \/ \E lens \in LenSets, nc \in 1..2, salt \in 0..1, L \in {0, MaxT, MaxT + 2}, fill \in {0, 7}, f \in {0, MaxT + 1} :
+    /\ \/ \E lens \in LenSets, nc \in 1..2, salt \in 0..1, L \in {0, MaxT, MaxT + 2}, fill \in {0, 7}, f \in {0, MaxT + 1}, hf \in 0..1 :
             /\ (f # 0 => L = 0)                       \* fitted on another, longer panel: only matters without a pad_length
-            /\ cfg' = [op |-> "pad", p |-> [NoP EXCEPT !.L = L, !.fill = fill, !.fit = f], X |-> Panel(lens, nc, salt)]
+            /\ (hf = 1 => (fill = 7 /\ f = 0))
+            /\ cfg' = [op |-> "pad", p |-> [NoP EXCEPT !.L = L, !.fill = fill, !.fit = f, !.half = hf], X |-> Panel(lens, nc, salt)]
        \/ \E lens \in LenSets, nc \in 1..2, salt \in 0..1, lh \in {<<0, 0>>, <<2, 0>>, <<3, 0>>, <<1, 3>>, <<2, 3>>}, f \in {0, 2} :
             /\ (f # 0 => lh = <<0, 0>>)                \* fitted on another panel with a shorter series
             /\ cfg' = [op |-> "truncate", p |-> [NoP EXCEPT !.lo = lh[1], !.hi = lh[2], !.fit = f], X |-> Panel(lens, nc, salt)]
@@ -31,8 +32,8 @@ PickOp ==
             /\ miss # {} /\ Cardinality(miss) <= 2 /\ \A x \in miss : x <= len
             /\ cfg' = [op |-> "impute", p |-> [NoP EXCEPT !.method = m, !.const = 7],
                        X |-> << << [t \in 1..len |-> IF t \in miss THEN MISS ELSE Val(1, 1, t, salt)] >> >>]
-       \/ \E len \in 5..(MaxT + 3), salt \in 0..3, k \in 1..3 :
-            cfg' = [op |-> "acf", p |-> [NoP EXCEPT !.k = k], X |-> Panel(<<len>>, 1, salt)]
+       \/ \E len \in 5..(MaxT + 3), salt \in 0..3, k \in 1..3, a \in 0..1 :
+            cfg' = [op |-> "acf", p |-> [NoP EXCEPT !.k = k, !.adj = a], X |-> Panel(<<len>>, 1, salt)]
        \/ \E len \in 3..(MaxT + 1), salt \in 0..3 :
             cfg' = [op |-> "minmax", p |-> NoP, X |-> Panel(<<len>>, 1, salt)]
     /\ stage' = "done"
